@@ -90,6 +90,7 @@ type genCtx struct {
 	noIntro   bool // C15: no code introspection, no CREATE2, no raw bytes
 	noMcopy   bool
 	self      string // address of the contract whose program is being generated ("" unknown)
+	blockNum  uint64 // number of the executing block (0 unknown)
 	nCreates  int
 }
 
@@ -335,6 +336,33 @@ var sweepPos = []string{"0x0", "0x1", "0x7", "0x8", "0x1e", "0x1f", "0x20", "0xf
 var sweepVal = []string{"0x0", "0x1", "0x2", "0x80", "0xff", "0x7fffffffffffffffffffffffffffffffffffffffffffffffffffffffffffffff",
 	"0x8000000000000000000000000000000000000000000000000000000000000000", "0xffffffffffffffffffffffffffffffffffffffffffffffffffffffffffffffff"}
 
+// stackLimit: fill the stack to 1022-1024 items (PC pushes one item), then one instruction
+// whose net stack effect decides whether it still fits; the frame goes on with the full stack.
+func (g *genCtx) stackLimit(r *RNG) []Macro {
+	n := pick(r, []int{1022, 1023, 1023, 1024, 1024})
+	ops := []opAvail{{"ISZERO", ""}, {"NOT", ""}, {"MLOAD", ""}, {"SLOAD", ""}, {"BALANCE", ""}, {"CALLDATALOAD", ""},
+		{"ADDRESS", ""}, {"MSIZE", ""}, {"GAS", ""}, {"DUP1", ""}, {"DUP16", ""}, {"SWAP16", ""}, {"ADD", ""}, {"CALLER", ""},
+		{"PUSH0", "Shanghai"}, {"CHAINID", "Istanbul"}, {"SELFBALANCE", "Istanbul"}, {"BASEFEE", "London"}, {"RETURNDATASIZE", "Byzantium"}}
+	if g.cancun {
+		ops = append(ops, opAvail{"TLOAD", ""}, opAvail{"TLOAD", ""}, opAvail{"TLOAD", ""}, opAvail{"TLOAD", ""})
+	}
+	op := g.pickOp(r, ops)
+	info, ok := opTable[op]
+	if !ok || info.pops > n {
+		return nil
+	}
+	// the assembler pushes the instruction's operands itself: fill up to n minus those
+	fill := make([]byte, n-info.pops)
+	for i := range fill {
+		fill[i] = 0x30 // ADDRESS: one byte, one item
+	}
+	a := make([]string, info.pops)
+	for i := range a {
+		a[i] = hxu(uint64(r.Intn(6)))
+	}
+	return []Macro{{K: "raw", Data: hx(fill)}, {K: "op", Op: op, A: a}}
+}
+
 // boundarySweep: one arithmetic / bit instruction on several operand tuples taken from the
 // edges of its domain (word size, sign bit, zero), every result kept in memory or storage.
 func (g *genCtx) boundarySweep(r *RNG) []Macro {
@@ -469,10 +497,23 @@ func (g *genCtx) genMacro(r *RNG, depth int) []Macro {
 			a := g.target(r)
 			if op == "BLOCKHASH" {
 				a = hxu(uint64(r.Intn(300)))
+				if g.blockNum > 0 && r.P(3, 4) {
+					// around the 256-block window below the executing block (and the block itself, the future)
+					d := int64(pick(r, []int{0, 1, 2, 255, 256, 257, 258, 300, -1, -2}))
+					if r.P(1, 4) {
+						d = int64(r.Intn(300))
+					}
+					if n := int64(g.blockNum) - d; n >= 0 {
+						a = hxu(uint64(n))
+					}
+				}
 			}
 			return []Macro{{K: "op", Op: op, A: []string{a}, Dst: genDst(r)}}
 		}
 	case w < 66:
+		if r.P(1, 10) {
+			return g.stackLimit(r)
+		}
 		n := 1 + r.Intn(16)
 		op := fmt.Sprintf("DUP%d", n)
 		if r.Bool() {
@@ -643,7 +684,11 @@ func (g *genCtx) genProgram(r *RNG, n int) *Program {
 }
 
 func genBlock(r *RNG) BlockSpec {
-	return BlockSpec{Number: uint64(1 + r.Intn(2000000)), Time: uint64(1600000000 + r.Intn(100000000)), Difficulty: uint64(r.Intn(1 << 30)),
+	num := uint64(1 + r.Intn(2000000))
+	if r.P(1, 10) {
+		num = uint64(1 + r.Intn(300)) // younger than the BLOCKHASH window
+	}
+	return BlockSpec{Number: num, Time: uint64(1600000000 + r.Intn(100000000)), Difficulty: uint64(r.Intn(1 << 30)),
 		GasLimit: uint64(8000000 + r.Intn(22000000)), BaseFee: uint64(r.Intn(1000)), Coinbase: "0xc01bba5e00000000000000000000000000000000", GasPrice: uint64(1 + r.Intn(1000))}
 }
 
@@ -677,7 +722,7 @@ func genStdScenario(seed uint64, prop string, maxFork string) *Scenario {
 		}
 	}
 	nc := 1 + r.Intn(4)
-	g := &genCtx{fork: sc.Fork, nContract: nc, strictOps: r.P(3, 4), cancun: sc.Fork == "Cancun"}
+	g := &genCtx{fork: sc.Fork, nContract: nc, strictOps: r.P(3, 4), cancun: sc.Fork == "Cancun", blockNum: sc.Block.Number}
 	for i := 0; i < nc; i++ {
 		g.targets = append(g.targets, contractAddr(i))
 	}
